@@ -20,6 +20,8 @@ def main():
     ap.add_argument("--only")
     ap.add_argument("--props", default=",".join(ALL))
     ap.add_argument("--tier", default="quick")
+    ap.add_argument("--runs", type=int, default=0)
+    ap.add_argument("--skip-tests", action="store_true")
     a = ap.parse_args()
     ids = sorted(x for x in os.listdir(os.path.join(VERIF, "seeded")) if x.startswith("refactor-"))
     if a.only:
@@ -27,7 +29,12 @@ def main():
     bad = 0
     for sid in ids:
         d = os.path.join(VERIF, "seeded", sid)
-        r = subprocess.run([os.path.join(VERIF, "tools", "run_seeded.py"), d, "--props", a.props, "--tier", a.tier], capture_output=True, text=True)
+        cmd = [os.path.join(VERIF, "tools", "run_seeded.py"), d, "--props", a.props, "--tier", a.tier]
+        if a.runs:
+            cmd += ["--runs", str(a.runs)]
+        if a.skip_tests:
+            cmd += ["--skip-tests"]
+        r = subprocess.run(cmd, capture_output=True, text=True)
         meta = json.load(open(os.path.join(d, "meta.json")))
         checks = {}
         for m in re.finditer(r"^check (C\d\d): (\S+)(.*)$", r.stdout, re.M):
@@ -36,8 +43,11 @@ def main():
                 checks[m.group(1)]["detail"] = m.group(3).strip()[:300]
                 bad += 1
         tests_ok = re.search(r"test suite with patch: rc=0", r.stdout) is not None
-        meta["checks_run_quick_tier_seed0"] = checks
-        meta["confirmed"] = {"test_suite_with_patch": "40 passed, coverage gate reached" if tests_ok else "FAILED"}
+        merged = meta.get("checks_run_quick_tier_seed0", {})
+        merged.update(checks)  # verdicts of checks not run this time are kept
+        meta["checks_run_quick_tier_seed0"] = merged
+        if not a.skip_tests:
+            meta["confirmed"] = {"test_suite_with_patch": "40 passed, coverage gate reached" if tests_ok else "FAILED"}
         json.dump(meta, open(os.path.join(d, "meta.json"), "w"), indent=1)
         print(sid, {k: v["verdict"] for k, v in checks.items()}, flush=True)
     subprocess.run([os.path.join(VERIF, "tools", "seeded_matrix.py"), "--matrix-only"])
